@@ -33,6 +33,7 @@ NOT_COVERED = [
     "bucket underflow (0 < m < N*2^-126): XLA flushes the bucket to zero and the column dequantizes to 0 (absolute error < 1.5e-36); "
     "P3b is stated for normal-range buckets",
     "P3b is proved in the standard rounding model (real arithmetic), not bit-precisely",
+    "P4 idempotence of the stored integers under re-quantization: no obligation is discharged (solver limit); bounded native oracle only",
 ]
 
 
@@ -240,8 +241,9 @@ def tasks(tier):
     ts.append(Task(f"half-bucket[{dt},extract_diagonal]", mk_halfbucket(dt, True)))
     ts.append(Task(f"A'[{dt}] standard rounding model", mk_aprime_rnd(dt)))
   ts.append(Task("casts", t_casts))
-  if tier == "thorough":
-    ts.append(Task("idempotent[int8]", mk_idempotent("int8")))
+  # P4 (re-quantization keeps the integers) has no discharged obligation: the bit-precise query (mk_idempotent) is beyond
+  # both solvers (unknown after 140 s, and an under-instantiated max produced a spurious counter-model once): it is NOT
+  # run; idempotence is covered by the bounded native oracle only.
   return ts
 
 
